@@ -7,7 +7,8 @@ use sux::utils::FromIntoIterator;
 
 /// executable twin of the C08 contracts: every key is a member through both query paths; with b hash bits the number of
 /// false positives among `probes` non-keys stays below probes / 2^b * 8 + 8 (for b = BITS of a 64-bit word: none at all)
-/// input: [n, filter_bits, word (0 = u64 bit-field, 1 = u16 bit-field, 2 = boxed u8)]
+/// input: [n, filter_bits, word (0 = u64 bit-field, 1 = u16 bit-field, 2 = boxed u8)]; the builder is given the exact key count
+/// (without it, 100_000 < n <= 800_000 trips a debug assertion of lin_log2_seg_size in the builder: C07 territory, noted in DESIGN.md 9.5)
 fn case(inp: &[u64]) -> Result<(), String> {
     let (n, bits, kind) = (inp[0] as usize, inp[1] as usize, inp[2] % 3);
     let probes = 4000usize;
@@ -23,15 +24,15 @@ fn case(inp: &[u64]) -> Result<(), String> {
     }} }
     match kind {
         0 => { let b = bits.clamp(1, 64);
-               let f: VFilter<u64, VFunc<usize, u64, BitFieldVec<u64>>> = VBuilder::<u64, BitFieldVec<u64>>::default().offline(false)
+               let f: VFilter<u64, VFunc<usize, u64, BitFieldVec<u64>>> = VBuilder::<u64, BitFieldVec<u64>>::default().offline(false).expected_num_keys(n)
                    .try_build_filter(FromIntoIterator::from(0..n), b, no_logging![]).map_err(|e| e.to_string())?;
                if b <= 58 || b == 60 || b == 64 { for k in 0..n { if !f.contains_unaligned(k) { return Err(format!("key {} is a false negative (unaligned)", k)); } } }
                check!(f, b, true) }
         1 => { let b = bits.clamp(1, 16);
-               let f: VFilter<u16, VFunc<usize, u16, BitFieldVec<u16>>> = VBuilder::<u16, BitFieldVec<u16>>::default().offline(false)
+               let f: VFilter<u16, VFunc<usize, u16, BitFieldVec<u16>>> = VBuilder::<u16, BitFieldVec<u16>>::default().offline(false).expected_num_keys(n)
                    .try_build_filter(FromIntoIterator::from(0..n), b, no_logging![]).map_err(|e| e.to_string())?;
                check!(f, b, false) }
-        _ => { let f: VFilter<u8, VFunc<usize, u8, Box<[u8]>>> = VBuilder::<u8, Box<[u8]>>::default().offline(false)
+        _ => { let f: VFilter<u8, VFunc<usize, u8, Box<[u8]>>> = VBuilder::<u8, Box<[u8]>>::default().offline(false).expected_num_keys(n)
                    .try_build_filter(FromIntoIterator::from(0..n), no_logging![]).map_err(|e| e.to_string())?;
                check!(f, 8usize, false) }
     }
@@ -45,5 +46,7 @@ pub fn run(case_name: &str, ctx: &mut Ctx, one: Option<&str>, rng: &mut Rng, bud
         if kind == 1 && bits > 16 { continue; }
         let v = vec![n, bits, kind]; let s = fmt_list(&v); ctx.trial(&s, false, || case(&v));
     } } }
+    // sizes at which the default ShardEdge splits the keys into several shards (100_000 ..= 800_000 keys)
+    if budget >= 1000 { for (n, bits, kind) in [(100_000u64, 9u64, 0u64), (200_000, 64, 0), (300_000, 16, 1), (150_000, 8, 2), (810_000, 5, 0)] { let v = vec![n, bits, kind]; let s = fmt_list(&v); ctx.trial(&s, false, || case(&v)); } }
     for _ in 0..budget.min(20) { let v = vec![rng.below(3000), 1 + rng.below(64), rng.below(3)]; let s = fmt_list(&v); ctx.trial(&s, false, || case(&v)); }
 }
